@@ -2,16 +2,15 @@ package c19
 
 import (
 	"reflect"
-	"sort"
 	"testing"
 	"time"
 
 	"github.com/gopacket/gopacket"
-	"github.com/gopacket/gopacket/layers"
 	"pgregory.net/rapid"
 
 	"verifharness/internal/corpus"
 	"verifharness/internal/gen"
+	"verifharness/internal/inst"
 	"verifharness/internal/registry"
 	"verifharness/internal/vh"
 )
@@ -29,106 +28,35 @@ type instance struct {
 	data []byte
 }
 
-var sweepValues = []byte{0x00, 0x01, 0x02, 0x03, 0x05, 0x7f, 0x80, 0xff}
-
 func layerInstances() []instance {
-	seen := map[uint64]bool{}
 	var out []instance
-	add := func(typ string, d []byte) {
-		if len(d) == 0 || len(d) > 96 {
-			return
-		}
-		h := vh.Hash64(typ, d)
-		if seen[h] {
-			return
-		}
-		seen[h] = true
-		out = append(out, instance{typ, append([]byte(nil), d...)})
-	}
-	firsts := []gopacket.LayerType{layers.LayerTypeEthernet, layers.LayerTypeIPv4, layers.LayerTypeIPv6, layers.LayerTypeDot11, layers.LayerTypeRadioTap, layers.LayerTypeLinuxSLL}
-	for _, s := range corpus.Seeds() {
-		if len(s) > 4000 {
-			continue
-		}
-		for _, lt := range firsts {
-			p := gopacket.NewPacket(s, lt, gopacket.DecodeOptions{NoCopy: true})
-			ls := p.Layers()
-			if len(ls) < 2 || p.ErrorLayer() != nil && len(ls) < 3 {
-				continue
-			}
-			for _, l := range ls {
-				rt := reflect.TypeOf(l)
-				if rt.Kind() != reflect.Ptr {
-					continue
-				}
-				name := rt.Elem().Name()
-				if _, ok := dlByName[name]; !ok {
-					continue
-				}
-				c := l.LayerContents()
-				add(name, c)
-				if pl := l.LayerPayload(); len(pl) > 0 && len(c)+len(pl) <= 96 {
-					add(name, append(append([]byte(nil), c...), pl...))
-				}
-			}
-			break // first decoder that makes sense of the seed
+	for _, in := range inst.Collect(96, 0) {
+		if _, ok := dlByName[in.Type]; ok {
+			out = append(out, instance{in.Type, in.Data})
 		}
 	}
-	sort.Slice(out, func(i, j int) bool {
-		if out[i].typ != out[j].typ {
-			return out[i].typ < out[j].typ
-		}
-		return string(out[i].data) < string(out[j].data)
-	})
 	return out
 }
 
-// sweepOne runs all variants of one instance; it returns the first failing variant, if any.
+// sweepOne runs all variants of one instance through its in-place decoder; it returns the first failing variant, if any.
 func sweepOne(in instance) (bad []byte, n int) {
-	t := dlByName[in.typ]
-	buf := make([]byte, len(in.data))
-	var cur []byte
-	try := func(d []byte) {
-		cur = d
-		n++
-		bd := t.New().(registry.ByteDecoder)
-		if err := bd.DecodeFromBytes(d, gopacket.NilDecodeFeedback); err == nil {
-			if dl, ok := bd.(gopacket.DecodingLayer); ok {
-				_ = dl.NextLayerType()
-				_ = dl.LayerPayload()
-			}
-		}
+	t, ok := dlByName[in.typ]
+	if !ok {
+		return nil, 0
 	}
+	var cur []byte
 	pv, _ := vh.Recover(func() {
-		L := len(in.data)
-		for k := 0; k <= L; k++ {
-			copy(buf, in.data)
-			try(buf[:k:k])
-		}
-		for i := 0; i < L; i++ {
-			for _, v := range sweepValues {
-				copy(buf, in.data)
-				buf[i] = v
-				try(buf)
-			}
-		}
-		pair := func(i, j int) {
-			for _, v := range sweepValues {
-				for _, w := range sweepValues {
-					copy(buf, in.data)
-					buf[i], buf[j] = v, w
-					try(buf)
+		inst.Variants(in.data, func(d []byte) {
+			cur = d
+			n++
+			bd := t.New().(registry.ByteDecoder)
+			if err := bd.DecodeFromBytes(d, gopacket.NilDecodeFeedback); err == nil {
+				if dl, ok := bd.(gopacket.DecodingLayer); ok {
+					_ = dl.NextLayerType()
+					_ = dl.LayerPayload()
 				}
 			}
-		}
-		for i := 0; i < L; i++ {
-			if i >= 6 && i < L-6 {
-				continue
-			}
-			for j := i + 1; j < L && j <= i+3; j++ {
-				pair(i, j)
-			}
-		}
+		})
 	})
 	if pv != nil {
 		return append([]byte(nil), cur...), n
@@ -140,17 +68,20 @@ func TestLayerSweep(t *testing.T) {
 	if len(corpus.Seeds()) == 0 {
 		t.Skip("no corpus")
 	}
-	ins := layerInstances()
+	all := layerInstances()
 	sh, nsh := vh.Shard()
-	step := 4
-	if vh.Thorough() {
-		step = 1
+	// quick: the first 6 instances of every type and every 8th after that; thorough: all
+	var ins []instance
+	nth := map[string]int{}
+	for _, in := range all {
+		k := nth[in.typ]
+		nth[in.typ]++
+		if vh.Thorough() || k < 6 || k%8 == 0 {
+			ins = append(ins, in)
+		}
 	}
 	total, types := 0, map[string]bool{}
 	for i := sh; i < len(ins); i += nsh {
-		if (i/nsh)%step != 0 {
-			continue
-		}
 		in := ins[i]
 		types[in.typ] = true
 		S.Current("TestDecode", &Case{Entry: "dfb", Type: in.typ, Data: in.data})
@@ -167,7 +98,7 @@ func TestLayerSweep(t *testing.T) {
 		}
 	}
 	S.Class("layer-sweep-variants", int64(total))
-	S.Extra("layer_sweep_instances", len(ins))
+	S.Extra("layer_sweep_instances", len(all))
 	S.Extra("layer_sweep_types", len(types))
 }
 
